@@ -332,11 +332,14 @@ def main(argv=None):
         print(f'KNOWN-FINDING: property={pid} {ks} '
               f'({k.get("what", "")}; {n} cases this run)')
     replay_paths = []
-    for sig, (msg, case, n) in sorted(new.items()):
+    for k, (sig, (msg, case, n)) in enumerate(sorted(new.items())):
         small = case
         try:
-            small = minimise(chk, case, sig,
-                             budget=150 if tier == 'quick' else 600)
+            # minimise the first few signatures only (one root cause often
+            # shows under many signatures; the rest are saved as found)
+            if k < 6:
+                small = minimise(chk, case, sig,
+                                 budget=150 if tier == 'quick' else 600)
         except Exception:
             traceback.print_exc()
         p = write_replay(pid, sig, msg, small)
